@@ -14,7 +14,9 @@ the data given to THAT call.  A case with a `history` key = the last call of suc
 Manager level: sequences of requests through ONE real `BatteryManager` (`__init__` replaced by its plain attribute
 initialisations + fake caches / tracker / API) with only the inverters / only the batteries / both / nothing publishing a
 new message in between: the commanded set-points must be those a fresh manager commands for the LATEST data
-(`C02.manager-latest-data`) and satisfy the three clauses for that data (`mgrseq:*` tags; replayable).
+(`C02.manager-latest-data`) and satisfy the three clauses for that data (`mgrseq:*` tags; replayable).  New messages may
+carry a time stamp that is NOT newer than the previous one (`msg_ts`), and an inverter at any position of its set may report
+NaN inclusion bounds: its battery set must then not be commanded at all and no set-point may be NaN (`C02.manager-nan-data`).
 Floats: the clauses are also applied to the outputs of the run on IEEE doubles, incl. the cases where it takes another
 branch than the exact run (exponents 4–8).
 Correspondence: shared with C01 (same driver, same generators); the Lean model is stateless (`C02_history_free`,
